@@ -46,11 +46,14 @@ REQUIRED = [
     "DaeVerif.C13.Props.ep_transport_closed_once_with_endpoint",
     "DaeVerif.C13.Props.ep_close_releases_once",
     "DaeVerif.C13.Props.ep_single_dial",
+    "DaeVerif.C13.Props.same_flow_same_endpoint",
+    "DaeVerif.C13.Props.first_packet_establishes_endpoint",
+    "DaeVerif.C13.Props.ingress_taken_buffer_never_rewritten",
 ]
 
-STREAMS = ["c13_tq", "c13_trk", "c13_krn", "c13_drn", "c13_key", "c13_ep", "c13_epc", "c13_lock", "c13_hp"]
+STREAMS = ["c13_tq", "c13_trk", "c13_krn", "c13_drn", "c13_key", "c13_ep", "c13_epc", "c13_lock", "c13_hp", "c13_ib"]
 HARNESS = ["control/c13_test.go", "control/c13_seq_test.go", "control/c13_ep_test.go", "control/c13_hp_test.go"]
-RESET = {"c13_tq": "tq reset", "c13_trk": "trk reset", "c13_krn": "krn reset", "c13_drn": "drn reset", "c13_ep": "ep reset", "c13_epc": "ep reset", "c13_lock": "epc reset", "c13_hp": "hp reset"}
+RESET = {"c13_tq": "tq reset", "c13_trk": "trk reset", "c13_krn": "krn reset", "c13_drn": "drn reset", "c13_ep": "ep reset", "c13_epc": "ep reset", "c13_lock": "epc reset", "c13_hp": "hp reset", "c13_ib": "ib reset"}
 
 
 def segment(ops, impl, lineno, reset_prefix):
